@@ -665,7 +665,8 @@ def handle (line : String) : String :=
       let dn := w.threads.all (fun t => t.pc == .done)
       some s!"ok {showStore w.store} {dn} {",".intercalate saw}"
     | "cache" :: k :: ops :: [] => do
-      let kind ← (if k = "weakKey" then some DictKind.weakKey else if k = "weakValue" then some DictKind.weakValue else none)
+      let kind ← (if k = "weakKey" then some DictKind.weakKey else if k = "weakValue" then some DictKind.weakValue
+                   else if k = "selfEntry" then some DictKind.selfEntry else if k = "noStore" then some DictKind.noStore else none)
       let os ← (splitNE ops ",").mapM parseCOp
       let st := (crun kind os).collect kind
       some s!"ok {showNatList (sortNats (st.alive kind).eraseDups)}"
